@@ -704,8 +704,15 @@ func ruleOffsetBase(r *Run) {
 				return
 			}
 			try := func(cur, j ssa.Value) bool {
-				c, ok := j.(*ssa.Call)
-				if !ok || !searchPrimitives[calleeName(c)] || len(c.Call.Args) == 0 {
+				// the addend is the primitive's result, directly or as one arm of a choice
+				// (`j := toks[i:].index(k); if j == -1 { j = n - i }; i += j`)
+				var c *ssa.Call
+				for _, o := range p.origins(j, originOpts{local: true}) {
+					if oc, ok := o.(*ssa.Call); ok && searchPrimitives[calleeName(oc)] && len(oc.Call.Args) > 0 {
+						c = oc
+					}
+				}
+				if c == nil {
 					return false
 				}
 				searched := c.Call.Args[0]
